@@ -4,6 +4,8 @@ import GormModel.Model.Batches
 import GormModel.Model.ReadPaths
 import GormModel.Model.ScanLoop
 import GormModel.Gen.ReadPathFacts
+import GormModel.Model.ScanPool
+import GormModel.Gen.ScanPoolFacts
 open Lean
 namespace Gorm.Drv
 namespace HC15
@@ -132,6 +134,15 @@ def scanOutJ (o : ScanOut) : Json :=
   Json.mkObj [("dest", destJ o.dest), ("ra", natJ o.ra), ("err", Json.bool o.err), ("nf", Json.bool o.notFound),
     ("branch", Json.str o.branch)]
 
+/-- the observable part of a goroutine's slot-level actions (field.Set leaves no trace in the recording pools) -/
+def poolActsJ (as : List Gorm.ScanPool.Act) : Json :=
+  Json.arr (as.filterMap fun a =>
+    match a with
+    | .get i => some (Json.arr #[Json.str "get", natJ i])
+    | .put i => some (Json.arr #[Json.str "put", natJ i])
+    | .scan _ => some (Json.arr #[Json.str "scan"])
+    | .set _ => none).toArray
+
 end HC15
 open HC15
 open Gorm.ScanLoop
@@ -142,6 +153,16 @@ def handleC15 (op : String) (args : Array Json) : Option Json := do
     -- the regenerated facts that select the transcription (the harness' generators stop avoiding a repaired pattern)
     some (Json.mkObj [("zeroLimitReturn", Json.bool Gen.findInBatchesZeroLimitReturn),
       ("scanNoRowResetsSlice", Json.bool Gen.scanNoRowResetsSlice)])
+  | "pool.trace" =>
+    -- Get / rows.Scan / Put sequence of one result set under the REGENERATED statement order of scanIntoStruct
+    let fs ← parseNats (arg args 1)
+    let n ← jNat? (arg args 2)
+    let sk := Gorm.ScanPool.decodeSkeleton Gen.scanIntoStructOrder
+    some (poolActsJ (Gorm.ScanPool.rowsRun (fun _ => false) fs sk n {}))
+  | "pool.facts" =>
+    some (Json.mkObj [("disciplined", Json.bool (Gorm.ScanPool.disciplined (Gorm.ScanPool.decodeSkeleton Gen.scanIntoStructOrder))),
+      ("outside", natJ Gen.scanPoolCallsOutsideFieldLoops), ("valuesLocal", Json.bool Gen.scanIntoStructValuesLocal),
+      ("newFresh", Json.bool Gen.scanPoolNewFresh)])
   | "limit.merge" =>
     let cs ← parseLimCalls (arg args 1)
     let st := applyCalls none cs
